@@ -13,7 +13,8 @@ import (
 // initial size, logging Len and Peek(0..Len-1) after every operation (the whole
 // API-level state).  Validated against CircularQueue.tla by CircularQueueTrace.
 func RunCQ(r *rt.Run) error {
-	t := r.NewTrace("cq")
+	// one trace file per initial size (+ one for the random runs): bounded memory per validating JVM
+	var t *rt.Trace
 	length := 6
 	inits := []int{0, 1, 4, 5}
 	deqs := []int{1, 2, 100}
@@ -78,6 +79,7 @@ func RunCQ(r *rt.Run) error {
 	}
 	// every sequence of exactly `length` operations (all shorter ones are its prefixes)
 	for _, init := range inits {
+		t = r.NewTrace(fmt.Sprintf("cq-init%d", init))
 		ops := make([]int, length)
 		var rec func(i int)
 		rec = func(i int) {
@@ -93,6 +95,7 @@ func RunCQ(r *rt.Run) error {
 		rec(0)
 	}
 	// seeded long random sequences: several growth steps and many wraps
+	t = r.NewTrace("cq-random")
 	nr := 300
 	if r.Thorough() {
 		nr = 3000
